@@ -2,6 +2,7 @@ package main
 
 import (
 	"fmt"
+	"go/token"
 	"strings"
 
 	"golang.org/x/tools/go/ssa"
@@ -71,6 +72,19 @@ func runC16(c *Ctx) {
 		for i, e := range ff.Edges {
 			f := ff.Facts[i]
 			if f.IsCmp && f.Op.String() == "!=" && cmdErr.Match(f.L) && f.R.Sym == "nil" {
+				// a later test of the same (immutable) result: every run taking it already took
+				// the earlier failure edge, whose obligation covers it
+				later := false
+				for j, e2 := range ff.Edges {
+					g := ff.Facts[j]
+					if e2.If.Block() != e.If.Block() && g.IsCmp && g.Op.String() == "!=" && cmdErr.Match(g.L) && g.R.Sym == "nil" &&
+						e2.If.Parent() == e.If.Parent() && e2.If.Block().Dominates(e.If.Block()) {
+						later = true
+					}
+				}
+				if later {
+					continue
+				}
 				first := e.To.Instrs[0]
 				path := reachesReturnAvoiding(first, func(in ssa.Instruction) bool { return in == stRest.(ssa.Instruction) }, nil)
 				if first == stRest.(ssa.Instruction) {
@@ -240,16 +254,70 @@ func runC16(c *Ctx) {
 		// RestoreSnapshot keeps exactly noRevert events and re-indexes them snapshotIndex + k
 		rf := factsOf(restore)
 		okKeep, okIdx := false, false
+		// every append that builds the list v happens where the event is known to be noRevert
+		var builtUnderNoRevert func(v ssa.Value, seen map[ssa.Value]bool) bool
+		builtUnderNoRevert = func(v ssa.Value, seen map[ssa.Value]bool) bool {
+			v = stripConv(v)
+			if seen[v] {
+				return true
+			}
+			seen[v] = true
+			switch x := v.(type) {
+			case *ssa.Phi:
+				for _, e := range x.Edges {
+					if !builtUnderNoRevert(e, seen) {
+						return false
+					}
+				}
+				return true
+			case *ssa.Call:
+				if CalleeName(x.Common()) != "builtin:append" {
+					return false
+				}
+				keep, _ := rf.BoolHoldsAt(x.Block(), IsField("statemachine.loggedEvent", "noRevert"), true)
+				return keep && builtUnderNoRevert(x.Common().Args[0], seen)
+			case *ssa.Slice:
+				_, lit := x.X.(*ssa.Alloc)
+				return lit
+			case *ssa.Const:
+				return true
+			}
+			return false
+		}
 		for _, b := range blocksDeep(restore) {
 			for _, in := range b.Instrs {
 				if st, ok := in.(*ssa.Store); ok {
 					if fa, ok := st.Addr.(*ssa.FieldAddr); ok {
 						o, s := ownerOfFieldBase(fa.X.Type())
 						if o == "blockchain.Event" && fieldNameOf(s.Field(fa.Field)) == "Index" {
-							t := rf.Term(st.Val).String()
-							okIdx = strings.Contains(t, "snapshotIndex") && strings.Contains(t, "builtin:len")
-							keep, _ := rf.BoolHoldsAt(b, IsField("statemachine.loggedEvent", "noRevert"), true)
-							okKeep = keep
+							// the value is snapshotIndex + position in the kept list: its length so far
+							// while it is built, or the index of a loop over it
+							sum, isSum := stripConv(st.Val).(*ssa.BinOp)
+							if !isSum || sum.Op != token.ADD {
+								continue
+							}
+							pos := sum.Y
+							if !strings.Contains(rf.Term(sum.X).String(), "snapshotIndex") {
+								pos = sum.X
+								if !strings.Contains(rf.Term(sum.Y).String(), "snapshotIndex") {
+									continue
+								}
+							}
+							var list ssa.Value
+							if cl, isCl := stripConv(pos).(*ssa.Call); isCl && CalleeName(cl.Common()) == "builtin:len" {
+								list = cl.Common().Args[0]
+								keep, _ := rf.BoolHoldsAt(b, IsField("statemachine.loggedEvent", "noRevert"), true)
+								okKeep = keep && builtUnderNoRevert(list, map[ssa.Value]bool{})
+							} else {
+								pt := rf.Term(pos).String()
+								for _, f := range rf.FactsAt(b) {
+									if f.IsCmp && f.Op == token.LSS && f.L.String() == pt && f.R.Op == "call" && f.R.Sym == "builtin:len" && f.R.Call != nil && nonNegative(f.L, pos.Type()) {
+										list = f.R.Call.Common().Args[0]
+									}
+								}
+								okKeep = list != nil && builtUnderNoRevert(list, map[ssa.Value]bool{})
+							}
+							okIdx = list != nil
 						}
 					}
 				}
